@@ -403,7 +403,7 @@ def check_flag_writers(ctx, fb):
         ctx.check(name in FLAG_WRITERS, "R15-4", "flag writer " + path.split("::")[-1] + "@" + it.file.split("/")[-1], "an operation whose flag/leaf pairing is decided by R15-1/R15-3",
                   "%s stores into the empty-position flags but is not one of the leaf-writing operations: the listing changes although no leaf does "
                   "(e.g. a recomputation helper marking a position as non-empty)" % path, loc(it))
-    ctx.floor("flag-writers", len(ws), 11)
+    ctx.floor("flag-writers", len(ws), 6)
 
 
 def check_path_pairing(ctx, fb):
